@@ -72,7 +72,7 @@ def check(ctx):
     for b in body.blocks:
         if b.cleanup or b.term.kind != "switch" or body.is_noise(b.term):
             continue
-        info = an.switch_info(b.idx)
+        info = an.switch_info(b.idx, opt=True)
         sw.append((b.idx, info[0], info[1]))
 
     def need(key, pred, label, what):
@@ -102,15 +102,14 @@ def check(ctx):
 
     need("intent-transfer", lambda e: is_eq_state(e, "Transfer"), "true", "handshake.next_state == State::Transfer")
     # secret configured: either `is_none()` false edge or a Some-pattern on self.auth_secret
-    ms1 = [(bb, e, ls) for bb, e, ls in sw if e[0] == "call" and flow.short(e[1]).endswith("Option::is_none")
-           and self_field(e[3][0]) == "auth_secret"]
+    ms1 = []
     ms2 = [(bb, e, ls) for bb, e, ls in sw if self_field(e) == "auth_secret" and any("Some" in l for l in ls.values())]
     edges = []
     for bb, e, ls in ms1:
         edges += [(bb, tb) for tb, l in ls.items() if "false" in l]
     for bb, e, ls in ms2:
         edges += [(bb, tb) for tb, l in ls.items() if "Some" in l]
-    okk, p = g.must_pass(acc_bb, cut_edges=[x for x in edges if x[0] in [m[0] for m in ms2]]) if ms2 else (False, None)
+    okk, p = g.must_pass(acc_bb, cut_edges=edges) if ms2 else (False, None)
     ctx.check(okk, RG, "C02/accept-guards/secret-configured", acc_site,
               reason="authentication can be skipped with no auth_secret configured",
               detail="accept point dominated by self.auth_secret is Some")
@@ -257,8 +256,8 @@ def check(ctx):
                 e = an.rvalue_expr(s.rv, (b.idx, i), 0)
                 for f in ("user_name", "user_id", "profile_properties"):
                     if cookie_field(e, f):
-                        nm = body.local_name(s.place.local)
-                        tgt = (s.place.fields() or [nm])[-1]
+                        # a struct-field target must be the like-named field; a plain local may have any name
+                        tgt = s.place.fields()[-1] if s.place.fields() else f
                         assigns[f] = tgt
     ctx.check(assigns == {"user_name": "user_name", "user_id": "user_id", "profile_properties": "profile_properties"}, RI,
               "C02/identity-from-cookie/assignments", acc_site,
